@@ -128,7 +128,9 @@ def _run_lines(cmd, ops, nproc, env=None, timeout=3600, cwd=None):
                 ans.append({"err": "unparsable", "raw": l[:200]})
         if len(ans) < n:
             # process died: mark the op it died on, the rest as not run
-            msg = (err or b"").decode("utf8", "replace")[-600:]
+            msg = (err or b"").decode("utf8", "replace")
+            if len(msg) > 3000:
+                msg = msg[:2200] + "\n[...]\n" + msg[-800:]
             ans.append({"crash": msg, "rc": p.returncode})
             while len(ans) < n:
                 ans.append({"notrun": True})
